@@ -280,6 +280,17 @@ def _draw_spec(tape, ctx):
     else:
         # 60000: a vocabulary for which the composite sort key col + (n_windows * V + 1) * row exceeds 2**32
         vocab = tape.weighted("l2.vocab", [(2, 20), (2, 50), (2, 300), (2, 3000), (1, 60000)])
+        if params.get("wide_vocab"):
+            # dedicated layer: the vocabulary is learned from the whole corpus and two windows are used, so that
+            # (n_windows * V + 1) * V > 2**32
+            vocab = 60000
+            s["op"] = tape.choice("l2.op_wide", ["fit_transform", "fit+transform"])
+            s["orient"] = ["directional"]
+            s["radii"] = [tape.choice("l2.radius_wide", [1, 2, 3])]
+            s["mix_weights"] = None
+            s["kernel_args"] = None
+            s["normalize_windows"] = False
+            s["kernel"] = "flat"
         n_docs = tape.between("l2.n_docs", 2, 40)
         total = tape.choice("l2.total", [20000, 40000, 80000, 200000])
         if vocab == 60000:
